@@ -873,7 +873,11 @@ class Exec:
         # inline: the callee body is verified as part of the caller
         if self.depth >= self.MAX_DEPTH:
             raise Unsupported("inline depth exceeded at %s" % fi.qualname)
-        if not self.reg.may_inline(fi.qualname):
+        private = fi.node.name.startswith("_") and not fi.node.name.startswith("__")
+        if not self.reg.may_inline(fi.qualname) and not (private and not self.prefix_mode):
+            # (private helpers without a contract are executed inline - the body is verified as part of the caller -, so
+            #  extracting a helper does not put a function outside the verifier's reach; not in prefix mode, where the first
+            #  uncontracted callee is the cut point)
             raise Unsupported("no contract for %s (called at line %s)" % (fi.qualname, getattr(node, "lineno", "?")))
         self.inlined.add(fi.qualname)
         bound = self.bind_args(p, fi, args, kwargs, self_val, node)
